@@ -21,6 +21,12 @@ The copier closure follows the semaphore through constructors/functions of copie
 class or @asynccontextmanager function of copier.py that wraps the semaphore is analysed with the same obligations as _AcquireManager (R2, R5)
 and its `async with` sites feed R4.
 Does not decide: fairness/starvation of large requests (the waiter list is ordered by weight by design), schedules as such.
+
+Spelling independence: both classes are first brought into one spelling by engines/c2440norm.py (same-class helpers inlined into acquire / release /
+__aenter__ / __aexit__, `x = x + n` as `x += n`, boolean locals moved into the test they feed, guard clauses as if / else, conditional-expression
+statements as if statements); the counter, the waiter list, the manager class and the copier's semaphore attribute are identified by what they are
+bound to, not by name; the head waiter's components are resolved through casts / locals / unpacking / indexing; weights may be passed by keyword or
+through a local.  A violation needs positive evidence; a shape that is not understood declines (exit 2).
 """
 from __future__ import annotations
 
@@ -29,6 +35,7 @@ from fractions import Fraction
 from typing import List, Optional
 
 from engines import asyncfacts as af
+from engines import c2440norm as nm
 from engines import c40facts as cf
 from engines import pyfacts as pf
 from engines.common import AnalysisError, Ctx
@@ -53,6 +60,19 @@ VAL = 'self.value'
 EV = 'self.events'
 
 
+_WP: dict = {}   # method of WeightedSemaphore -> name of its weight parameter (filled by run)
+
+
+def _weight_arg(call: ast.Call, method: str) -> Optional[ast.AST]:
+    """The weight passed to acquire / release / acquire_manager: the only positional argument, or the only keyword argument when it names the
+    weight parameter.  None for any other argument shape."""
+    if len(call.args) == 1 and not call.keywords and not isinstance(call.args[0], ast.Starred):
+        return call.args[0]
+    if not call.args and len(call.keywords) == 1 and call.keywords[0].arg is not None and call.keywords[0].arg == _WP.get(method):
+        return call.keywords[0].value
+    return None
+
+
 def _strip_cast(e: ast.AST) -> ast.AST:
     while isinstance(e, ast.Call) and pf.dotted(e.func) in ('cast', 'typing.cast') and len(e.args) == 2:
         e = e.args[1]
@@ -69,43 +89,91 @@ def _resolve_local(fn: pf.FuncDef, e: ast.AST) -> ast.AST:
     return e
 
 
-def _wake_loop(ctx: Ctx, m: pf.Module, cls: ast.ClassDef) -> af.WakeLoop:
-    """af.wake_loop (head read by tuple unpacking) or the record form `X = events[0]` with the components read as `X.<field>`."""
-    try:
-        return af.wake_loop(m, cls, 'release', VAL, EV)
-    except af.FitNotOnValue:
-        raise
-    except AnalysisError as first:
-        fn = af.method(m, cls, 'release')
-        ev = af.TestEval('?', '?', [EV])
-        cands = []
-        for n in pf.walk_shallow(fn):
-            if isinstance(n, (ast.While, ast.If)) and af.mentions(n.test, EV):
-                try:
-                    rows = ev.rows(n.test)
-                except AnalysisError:
+def _uninlined(cls: ast.ClassDef, node: ast.AST, recv: str = 'self', allow: tuple = ()) -> List[str]:
+    """Calls `self.<method of this class>(...)` inside node that were not inlined (what they do is not visible here)."""
+    names = {f.name for f in cls.body if isinstance(f, (ast.FunctionDef, ast.AsyncFunctionDef))} - set(allow)
+    return sorted({pf.nsrc(c)[:60] for c in ast.walk(node) if isinstance(c, ast.Call) and isinstance(c.func, ast.Attribute)
+                   and isinstance(c.func.value, ast.Name) and c.func.value.id == recv and c.func.attr in names})
+
+
+def _is_head(fn: pf.FuncDef, e: ast.AST, depth: int = 4) -> bool:
+    """e denotes the first element of the waiter list: `self.events[0]`, or a local bound (only) to it."""
+    e = _strip_cast(e)
+    if isinstance(e, ast.Subscript) and pf.nsrc(e.value) == EV:
+        return pf.nsrc(e.slice) == '0'
+    if isinstance(e, ast.Name) and depth > 0:
+        defs = [d for d in pf.assignments(fn).get(e.id, []) if not (isinstance(d, ast.expr) and pf.nsrc(_strip_cast(d)) == e.id)]
+        return len(defs) == 1 and isinstance(defs[0], ast.expr) and _is_head(fn, defs[0], depth - 1)
+    return False
+
+
+def _head_comp(fn: pf.FuncDef, e: ast.AST, depth: int = 4):
+    """Which component of the head waiter the expression is: ('idx', i) / ('attr', name); None if it is not (recognisably) one.
+    Followed through casts, locals (`x = cast(int, x)` re-bindings are identities), tuple unpacking of the head, `head[i]`, `head.f`."""
+    e = _strip_cast(e)
+    if isinstance(e, ast.Subscript) and isinstance(e.slice, ast.Constant) and isinstance(e.slice.value, int) and not isinstance(e.slice.value, bool) \
+            and e.slice.value >= 0 and _is_head(fn, e.value):
+        return ('idx', e.slice.value)
+    if isinstance(e, ast.Attribute) and _is_head(fn, e.value):
+        return ('attr', e.attr)
+    if isinstance(e, ast.Name) and depth > 0:
+        got = set()
+        for d in pf.assignments(fn).get(e.id, []):
+            if isinstance(d, ast.expr):
+                if pf.nsrc(_strip_cast(d)) == e.id:
                     continue
-                if all(r[2] == r[1][EV] for r in rows):
-                    cands.append(n)
-        if len(cands) != 1:
-            raise first
-        heads = []
-        for s_ in cands[0].body:
-            tgt = s_.targets[0] if isinstance(s_, ast.Assign) and len(s_.targets) == 1 else s_.target if isinstance(s_, ast.AnnAssign) else None
-            val = getattr(s_, 'value', None)
-            if isinstance(tgt, ast.Name) and isinstance(val, ast.Subscript) and pf.nsrc(val.value) == EV:
-                heads.append(s_)
-        fits = [s_ for s_ in ast.walk(cands[0]) if isinstance(s_, ast.If) and s_ is not cands[0] and af.mentions(s_.test, VAL)]
-        if len(heads) != 1 or len(fits) != 1:
-            raise first
-        wl = af.WakeLoop()
-        wl.fn, wl.cfg, wl.stmt, wl.is_loop = fn, pf.cfg(fn), cands[0], isinstance(cands[0], ast.While)
-        wl.head = heads[0]  # type: ignore[assignment]
-        X = (heads[0].targets[0] if isinstance(heads[0], ast.Assign) else heads[0].target).id  # type: ignore[union-attr]
-        ctx.need(len(pf.assignments(fn).get(X, [])) == 1, f'{CLS}.release: `{X}` (head of the waiter list) is bound more than once')
-        wl.names = [X]
-        wl.fit = fits[0]
-        return wl
+                got.add(_head_comp(fn, d, depth - 1))
+            elif isinstance(d, ast.Assign) and len(d.targets) == 1 and isinstance(d.targets[0], ast.Tuple) and all(isinstance(x, ast.Name) for x in d.targets[0].elts) \
+                    and _is_head(fn, d.value):
+                got.add(('idx', [x.id for x in d.targets[0].elts].index(e.id)))  # type: ignore[attr-defined]
+            else:
+                got.add(None)
+        return next(iter(got)) if len(got) == 1 else None
+    return None
+
+
+def _head_reads(fn: pf.FuncDef, cfg: pf.CFG) -> List[pf.Node]:
+    """CFG nodes of release that read `self.events[0]`."""
+    return [n for n in cfg.nodes if n.ast is not None and any(isinstance(x, ast.Subscript) and pf.nsrc(x.value) == EV for e in pf.node_exprs(n) for x in pf.walk_shallow(e))]
+
+
+class _Wake:
+    def __init__(self):
+        self.stmt = None     # the While
+        self.fit = None      # the If deciding whether the head fits
+
+
+def _wake_loop(ctx: Ctx, m: pf.Module, cls: ast.ClassDef, fn: pf.FuncDef) -> _Wake:
+    """`while <waiter list non-empty>: ... if <head fits the free capacity>: wake it  else: leave` -- however the head's components are read."""
+    qn = f'{CLS}.release'
+    ev = af.TestEval('?', '?', [EV])
+    cands = []
+    for n in pf.walk_shallow(fn):
+        if isinstance(n, (ast.While, ast.If)) and af.mentions(n.test, EV):
+            try:
+                rows = ev.rows(n.test)
+            except AnalysisError:
+                continue
+            if all(r[2] == r[1][EV] for r in rows):
+                cands.append(n)
+    ctx.need(len(cands) == 1, f'{F}::{qn}: expected exactly one `while {EV}:` wake loop, found {len(cands)}')
+    wl = _Wake()
+    wl.stmt = cands[0]
+    fits = [s_ for s_ in ast.walk(cands[0]) if isinstance(s_, ast.If) and s_ is not cands[0] and af.mentions(s_.test, VAL)]
+    if not fits:
+        # the loop decides on something else than the total free capacity: recognise "compares the head with the released amount only"
+        params = [a.arg for a in fn.args.args][1:]
+        for s_ in [x for x in ast.walk(cands[0]) if isinstance(x, ast.If) and x is not cands[0]]:
+            for c in ast.walk(s_.test):
+                if isinstance(c, ast.Compare):
+                    sides = [c.left] + list(c.comparators)
+                    heads = [x for x in sides if _head_comp(fn, x) is not None]
+                    rest = [x for x in sides if x not in heads]
+                    if heads and rest and all(pf.names_in(x) and pf.names_in(x) <= set(params) for x in rest):
+                        raise af.FitNotOnValue(f'{F}::{qn}', pf.nsrc(s_.test), s_.lineno, VAL)
+    ctx.need(len(fits) == 1, f'{F}::{qn}: expected one fit test on {VAL} in the wake loop, found {len(fits)}')
+    wl.fit = fits[0]
+    return wl
 
 
 def _release(ctx: Ctx, m: pf.Module, cls: ast.ClassDef, guards: List[af.Guarded], entry: Optional[cf.Entry]) -> None:
@@ -116,12 +184,16 @@ def _release(ctx: Ctx, m: pf.Module, cls: ast.ClassDef, guards: List[af.Guarded]
     params = [a.arg for a in fn.args.args]
     ctx.need(len(params) == 2, f'release parameters changed: {params}')
     w = params[1]
-    wl = _wake_loop(ctx, m, cls)
-    record = len(wl.names) == 1
-    ctx.need(pf.nsrc(wl.head.value.slice) == '0', f'{qn}: waiter examined is `{pf.nsrc(wl.head.value)}`, not the first of the list')  # type: ignore[union-attr]
+    un = _uninlined(cls, fn)
+    ctx.need(not un, f'{qn}: still calls {un[0] if un else ""} (helper not inlined): the wake-up is not visible in release itself')
+    wl = _wake_loop(ctx, m, cls, fn)
     L = af.test_node(cfg, wl.stmt.test)  # type: ignore[union-attr]
     incs = af.stmt_nodes(cfg, lambda n: isinstance(n.ast, ast.AugAssign) and isinstance(n.ast.op, ast.Add) and pf.nsrc(n.ast.target) == VAL)
-    okinc = len(incs) == 1 and pf.nsrc(incs[0].ast.value) == w and cfg.dominated_by(cfg.exit, lambda n: n is incs[0])  # type: ignore[union-attr]
+    okinc = len(incs) == 1 and pf.nsrc(_resolve_local(fn, incs[0].ast.value)) == w and cfg.dominated_by(cfg.exit, lambda n: n is incs[0])  # type: ignore[union-attr]
+    if not okinc and len(incs) == 1:
+        given = _resolve_local(fn, incs[0].ast.value)  # type: ignore[union-attr]
+        ctx.need(isinstance(given, ast.Constant) or pf.names_in(given) <= {w} or not cfg.dominated_by(cfg.exit, lambda n: n is incs[0]),
+                 f'{qn}: cannot relate the amount given back `{pf.nsrc(given)}` to the released weight `{w}`')
     ctx.check(okinc, 'R2', f'{F}::{qn}::give back', f'release does not add exactly the released weight `{w}` back to {VAL} once on every path '
               f'(found {[n.text() for n in incs]})', m.path, fn.lineno)
     gs = [g for g in guards if g.fnname == 'release']
@@ -134,60 +206,48 @@ def _release(ctx: Ctx, m: pf.Module, cls: ast.ClassDef, guards: List[af.Guarded]
         return
     g = gs[0]
     ctx.need(g.test.ast is wl.fit.test, f'{qn}: the decrement is not guarded by the fit test of the wake loop')  # type: ignore[union-attr]
-    setcalls = [c for c in ast.walk(wl.stmt) if isinstance(c, ast.Call) and isinstance(c.func, ast.Attribute) and c.func.attr == 'set' and not c.args]  # type: ignore[arg-type]
-    if record:
-        X = wl.names[0]
-        charged = _resolve_local(fn, g.dec.ast.value)  # type: ignore[union-attr]
-        ctx.need(isinstance(charged, ast.Attribute) and isinstance(charged.value, ast.Name) and charged.value.id == X,
-                 f'{qn}: decrements `{g.w}`, which is not read from the head `{X}` of the waiter list')
-        evs = {}
-        for c in setcalls:
-            r = _resolve_local(fn, c.func.value)  # type: ignore[attr-defined]
-            if isinstance(r, ast.Attribute) and isinstance(r.value, ast.Name) and r.value.id == X:
-                evs[pf.nsrc(c.func.value)] = r.attr  # type: ignore[attr-defined]
-        ctx.need(len(evs) <= 1, f'{qn}: several events of the head waiter are set: {sorted(evs)}')
-        evname = next(iter(evs), f'{X}.<event>')
-        wattr, eattr = charged.attr, next(iter(evs.values()), None)  # type: ignore[union-attr]
-        if entry is not None:
-            ctx.need(entry.form == 'record', f'{qn}: reads the head as a record `{X}.{wattr}` but acquire registers a tuple')
-            for attr, role in ((wattr, 'weight'), (eattr, 'event')):
-                if attr is None:
-                    continue
-                got = entry.by_attr.get(attr)
-                ctx.need(got is not None, f'{qn}: `{X}.{attr}` is not a field of the registered {entry.rec.cls.name}')  # type: ignore[union-attr]
-                ctx.check(got == role, 'R1', f'{F}::{CLS}::waiter element layout' + ('' if role == 'weight' else '::event'),
-                          f'acquire registers {entry.layout()} but release uses `{X}.{attr}` as the {role}: '
-                          + ('the weight charged is not the waiter\'s' if role == 'weight' else 'the event set is not the one the waiter waits on'),
-                          m.path, wl.head.lineno)  # type: ignore[union-attr]
-    else:
-        ctx.need(g.w in wl.names and len(wl.names) >= 2, f'{qn}: decrements `{g.w}`, which is not read from the head of the waiter list')
-        # the names read from the head may only be re-bound to themselves (cast)
-        for nme in wl.names:
-            for d in pf.assignments(fn).get(nme, []):
-                if d is wl.head:
-                    continue
-                ctx.need(isinstance(d, ast.expr) and pf.nsrc(_strip_cast(d)) == nme, f'{qn}: `{nme}` is re-bound to `{pf.nsrc(d)}` inside release')
-        widx = wl.names.index(g.w)
-        cand = [pf.nsrc(c.func.value) for c in setcalls if pf.nsrc(c.func.value) in wl.names and pf.nsrc(c.func.value) != g.w]  # type: ignore[attr-defined]
-        if cand:
-            evname = cand[0]
-        else:
-            ctx.need(len(wl.names) == 2, f'{qn}: cannot tell which component of the head is the event')
-            evname = wl.names[1 - widx]
-        eidx = wl.names.index(evname)
-        reader = ['weight' if i == widx else 'event' if i == eidx else 'other' for i in range(len(wl.names))]
-        if entry is not None:
-            ctx.need(entry.by_index is not None, f'{qn}: unpacks the head as a tuple but acquire registers a {entry.rec.cls.name if entry.rec else "?"} record')
-            layout = entry.by_index or []
-            same = layout == reader
-            ctx.check(same, 'R1', f'{F}::{CLS}::waiter element layout',
-                      f'acquire registers ({", ".join(layout)}) but release unpacks the head as ({", ".join(reader)}): the weight charged is not the waiter\'s',
-                      m.path, wl.head.lineno)  # type: ignore[union-attr]
+    # which component of the head is charged, which one is set
+    wcomp = _head_comp(fn, g.dec.ast.value)  # type: ignore[union-attr]
+    ctx.need(wcomp is not None, f'{qn}: decrements `{g.w}`, which is not read from the head of the waiter list')
+    setcalls = [c for c in ast.walk(wl.stmt) if isinstance(c, ast.Call) and isinstance(c.func, ast.Attribute) and c.func.attr == 'set' and not c.args and not c.keywords]  # type: ignore[arg-type]
+    evs = {}
+    for c in setcalls:
+        comp = _head_comp(fn, c.func.value)  # type: ignore[attr-defined]
+        ctx.need(comp is not None, f'{qn}: `{pf.nsrc(c)}` sets something that is not read from the head of the waiter list (not analysed)')
+        evs[pf.nsrc(c.func.value)] = comp  # type: ignore[attr-defined]
+    ctx.need(len(set(evs.values())) <= 1, f'{qn}: several components of the head waiter are set: {sorted(evs)}')
+    ecomp = next(iter(evs.values()), None)
+    # the components must be those of the waiter that is removed: no read of the head between its removal and the next evaluation of the loop test
+    popn = af.stmt_nodes(cfg, lambda n: ((c := af.node_is_call(n, f'{EV}.pop')) is not None and [pf.nsrc(a) for a in c.args] == ['0'] and not c.keywords)
+                         or (isinstance(n.ast, ast.Delete) and [pf.nsrc(t) for t in n.ast.targets] == [f'{EV}[0]']))
+    for P in popn:
+        late = [r for r in _head_reads(fn, cfg) if r is not P and cfg.path_avoiding(P, lambda n, r=r: n is r, lambda n: n is L) is not None]
+        ctx.need(not late, f'{qn}: `{late[0].text() if late else ""}` reads the head of the waiter list after `{P.text()}` removed it (not analysed)')
+    if entry is not None:
+        for comp, role in ((wcomp, 'weight'), (ecomp, 'event')):
+            if comp is None:
+                continue
+            kind, key = comp
+            if kind == 'attr':
+                ctx.need(entry.form == 'record', f'{qn}: reads the head as a record `.{key}` but acquire registers a tuple')
+                got = entry.by_attr.get(key)
+                ctx.need(got is not None, f'{qn}: `.{key}` is not a field of the registered {entry.rec.cls.name}')  # type: ignore[union-attr]
+                shown = f'`<head>.{key}`'
+            else:
+                ctx.need(entry.by_index is not None, f'{qn}: reads the head by position but acquire registers a {entry.rec.cls.name if entry.rec else "?"} record')
+                layout = entry.by_index or []
+                ctx.need(key < len(layout), f'{qn}: reads component {key} of the head but acquire registers {len(layout)} components')
+                got = layout[key]
+                shown = f'component {key} of the head'
+            ctx.check(got == role, 'R1', f'{F}::{CLS}::waiter element layout' + ('' if role == 'weight' else '::event'),
+                      f'acquire registers {entry.layout()} but release uses {shown} as the {role}: '
+                      + ('the weight charged is not the waiter\'s' if role == 'weight' else 'the event set is not the one the waiter waits on'),
+                      m.path, wl.fit.lineno)  # type: ignore[union-attr]
     # wake = set + remove head + decrement on every path where the head fits
     cons = f'{F}::{qn}::wake'
-    setn = af.stmt_nodes(cfg, lambda n: af.node_is_call(n, f'{evname}.set') is not None)
-    popn = af.stmt_nodes(cfg, lambda n: (c := af.node_is_call(n, f'{EV}.pop')) is not None and [pf.nsrc(a) for a in c.args] == ['0'])
-    anypop = af.stmt_nodes(cfg, lambda n: any(pf.dotted(c.func) in (f'{EV}.pop', f'{EV}.remove', f'{EV}.discard', f'{EV}.clear') for c in pf.node_calls(n)))
+    setn = af.stmt_nodes(cfg, lambda n: any(c2 is x for c2 in setcalls for e in pf.node_exprs(n) for x in pf.walk_shallow(e)))
+    anypop = af.stmt_nodes(cfg, lambda n: any(pf.dotted(c.func) in (f'{EV}.pop', f'{EV}.remove', f'{EV}.discard', f'{EV}.clear') for c in pf.node_calls(n))
+                           or (isinstance(n.ast, ast.Delete) and any(af.mentions(t, EV) for t in n.ast.targets)))
     for x in anypop:
         if x not in popn:
             raise AnalysisError(f'{qn}: unrecognised removal `{x.text()}` from the waiter list')
@@ -204,6 +264,54 @@ def _release(ctx: Ctx, m: pf.Module, cls: ast.ClassDef, guards: List[af.Guarded]
         p = af.must_pass(cfg, g.test, goal, lambda n, nodes=nodes: any(n is x for x in nodes), first_label=g.label)
         only = all(af.every_path_uses_edge(cfg, x, g.test, g.label) for x in nodes)
         ctx.check(p is None and only, 'R1', c2, f'{what} is not performed exactly on the paths where the head fits: {why[what]}', m.path, nodes[0].lineno)
+
+
+def _opaque_test(fn: pf.FuncDef, test: ast.AST, seen: tuple = ()) -> Optional[str]:
+    """Why the truth of `test` may depend on the semaphore's state in a way the test itself does not show: a local whose definition reads the
+    object (the normaliser could not move it into the test), an await, a call that is handed the object."""
+    asg = pf.assignments(fn)
+    for x in ast.walk(test):
+        if isinstance(x, ast.Name) and isinstance(x.ctx, ast.Load) and x.id != 'self' and x.id not in seen:
+            for d in asg.get(x.id, []):
+                if isinstance(d, (ast.Constant, ast.arg)):
+                    continue
+                if not isinstance(d, ast.expr) or isinstance(d, (ast.Await, ast.Yield, ast.YieldFrom)):
+                    if isinstance(d, ast.Assign) and _is_head(fn, d.value):
+                        continue      # tuple unpacking of the head waiter: its components are what the rules resolve
+                    return f'local `{x.id}` (bound by `{pf.nsrc(d)[:60]}`)'
+                if pf.nsrc(_strip_cast(d)) == x.id or _head_comp(fn, d) is not None or _is_head(fn, d):
+                    continue
+                if any(isinstance(y, ast.Name) and y.id == 'self' for y in ast.walk(d)) or _opaque_test(fn, d, seen + (x.id,)) is not None:
+                    return f'local `{x.id}` (= `{pf.nsrc(d)[:60]}`)'
+        if isinstance(x, (ast.Await, ast.NamedExpr, ast.Lambda)):
+            return f'`{pf.nsrc(x)[:60]}`'
+        if isinstance(x, ast.Call) and pf.dotted(x.func) not in nm.PURE_FUNCS and not (isinstance(x.func, ast.Attribute) and x.func.attr in nm.PURE_METHODS) \
+                and any(isinstance(y, ast.Name) and y.id == 'self' for y in ast.walk(x)):
+            return f'call `{pf.nsrc(x)[:60]}`'
+    return None
+
+
+def _precheck_decrements(ctx: Ctx, m: pf.Module, cls: ast.ClassDef) -> None:
+    """af.guarded_decrements reports a decrement that no test on self.value dominates.  That is evidence only when the tests that DO dominate it are
+    transparent and the decrement sits in a method that is an entry point of its own; decline otherwise (a guard behind a local / a helper that is
+    called under the guard but could not be inlined)."""
+    for fn in [st for st in cls.body if isinstance(st, (ast.FunctionDef, ast.AsyncFunctionDef))]:
+        cfg = pf.cfg(fn)
+        decs = af.stmt_nodes(cfg, lambda n: n.kind == 'stmt' and isinstance(n.ast, ast.AugAssign) and isinstance(n.ast.op, ast.Sub) and pf.nsrc(n.ast.target) == VAL)
+        if not decs:
+            continue
+        if fn.name not in ('acquire', 'release'):
+            refs = [f.name for f in cls.body if isinstance(f, (ast.FunctionDef, ast.AsyncFunctionDef)) and f is not fn and _uninlined(cls, f) and
+                    any(fn.name + '(' in u for u in _uninlined(cls, f))]
+            ctx.need(not refs, f'{CLS}.{fn.name} decrements {VAL} and is called from {refs[0] if refs else ""} without having been inlined there: its guard is not visible')
+        for D in decs:
+            dom = [t for t in cfg.nodes if t.kind == 'test' and t is not D
+                   and any(any(lab == label for _, lab in t.succ) and af.every_path_uses_edge(cfg, D, t, label) for label in ('T', 'F'))]
+            if any(af.mentions(t.ast, VAL) for t in dom):
+                continue     # a test on self.value dominates the decrement: decided by its truth table
+            for t in dom:
+                why = _opaque_test(fn, t.ast)
+                ctx.need(why is None, f'{CLS}.{fn.name}: `{pf.nsrc(D.ast)}` is guarded by `{pf.nsrc(t.ast)}`, which reads {why}: guard not recognised')
 
 
 def _build_entry(ctx: Ctx, m: pf.Module, fn: pf.FuncDef, arg: ast.AST, w: str, awaited: List[str]) -> cf.Entry:
@@ -340,6 +448,8 @@ def _acquire(ctx: Ctx, m: pf.Module, cls: ast.ClassDef, guards: List[af.Guarded]
             dereg = [c for c in calls if pf.dotted(c.func) in (f'{EV}.remove', f'{EV}.discard', f'{EV}.pop', f'{EV}.clear')]
             hand = [c for c in calls if pf.dotted(c.func) == 'self.release'] + \
                    [s for _, b in blocks for st in b for s in ast.walk(st) if isinstance(s, ast.AugAssign) and isinstance(s.op, ast.Add) and pf.nsrc(s.target) == VAL]
+            un = sorted({x for _, b in blocks for st in b for x in _uninlined(cls, st, allow=('release',))})
+            ctx.need(not un, f'{qn}: the clean-up of `{pf.nsrc(a)}` calls {un[0] if un else ""} (helper not inlined): what it deregisters / hands back is not visible')
             if not dereg and not hand:
                 ctx.bad('R3', cons, f'`{pf.nsrc(a)}` follows `{R.text()}` but no except/finally runs when it raises CancelledError: the cancelled waiter stays in '
                         f'{EV}; the next release that fits pops it, subtracts its weight and sets an event nobody waits on, so that capacity is never returned '
@@ -354,7 +464,12 @@ def _acquire(ctx: Ctx, m: pf.Module, cls: ast.ClassDef, guards: List[af.Guarded]
             if hand:
                 _hand_back(ctx, m, fn, cons, blocks, hand, w, evname, a)
     # wait is on the registered event
-    wait_ok = any(isinstance(a, ast.Await) and pf.call_name(a) == f'{evname}.wait' for n in aw_nodes for a in ast.walk(n.ast))
+    aws = [a for n in aw_nodes for a in ast.walk(n.ast) if isinstance(a, ast.Await)]
+    wait_ok = any(pf.call_name(a) == f'{evname}.wait' for a in aws)
+    if not wait_ok:
+        plain = all(isinstance(a.value, ast.Call) and isinstance(a.value.func, ast.Attribute) and a.value.func.attr == 'wait' and not a.value.args
+                    and isinstance(a.value.func.value, (ast.Name, ast.Attribute)) for a in aws)
+        ctx.need(plain, f'{qn}: the await(s) after the registration ({", ".join(pf.nsrc(a) for a in aws)[:120]}) are not plain `<event>.wait()` calls: cannot tell what is waited on')
     ctx.check(wait_ok, 'R1', f'{F}::{qn}::waits on registered event', f'the waiter does not wait on the event `{evname}` it registered: it resumes without a grant',
               m.path, R.lineno)
     return entry
@@ -370,6 +485,13 @@ def _own_entry(ctx: Ctx, m: pf.Module, fn: pf.FuncDef, cons: str, entry: cf.Entr
         meth = c.func.attr  # type: ignore[attr-defined]
         c2 = cons + '::deregister::own entry'
         if meth in ('pop', 'clear'):
+            par_ = m.parents()
+            cur_ = par_.get(c)
+            in_loop = False
+            while cur_ is not None and cur_ is not fn:
+                in_loop = in_loop or isinstance(cur_, (ast.While, ast.For))
+                cur_ = par_.get(cur_)
+            ctx.need(not in_loop, f'{qn}: `{pf.nsrc(c)}` inside a loop of the clean-up (a wake-up loop, not a deregistration: not analysed)')
             ctx.bad('R3', c2, f'the cancellation clean-up removes by position (`{pf.nsrc(c)}`), not the cancelled waiter\'s own entry: with another waiter queued in front '
                     f'that one is dropped instead. ' + witness, m.path, c.lineno)
             continue
@@ -412,7 +534,7 @@ def _hand_back(ctx: Ctx, m: pf.Module, fn: pf.FuncDef, cons: str, blocks, hand: 
         ctx.check(g == 'set', 'R3', c2, f'`{pf.nsrc(h)}` runs on cancellation ' + ('when the event is NOT set' if g == 'unset' else 'whether or not the event is set')
                   + f': a waiter cancelled while still queued (never granted) gives back {w} it never took -- {VAL} exceeds the capacity and later acquirers are '
                   f'admitted beyond it', m.path, getattr(h, 'lineno', a.lineno))
-        amount = h.args[0] if isinstance(h, ast.Call) and len(h.args) == 1 else h.value if isinstance(h, ast.AugAssign) else None
+        amount = _weight_arg(h, 'release') if isinstance(h, ast.Call) else h.value if isinstance(h, ast.AugAssign) else None
         ctx.need(amount is not None, f'{qn}: hand-back `{pf.nsrc(h)}` not recognised')
         r = _resolve_local(fn, amount)  # type: ignore[arg-type]
         c3 = cons + '::hand back::same weight'
@@ -483,7 +605,8 @@ def _manager_generator(ctx: Ctx, m: pf.Module, am: pf.FuncDef, file: str = F, ow
         ctx.need(len(params) == 2, f'{cons}: parameters changed: {params}')
         recv = params[0]
     _acquire_sites(ctx, m, am, recv, cons)
-    wcands = [pf.nsrc(c.args[0]) for c in ast.walk(am) if isinstance(c, ast.Call) and pf.dotted(c.func) == f'{recv}.acquire' and len(c.args) == 1]
+    wcands = [pf.nsrc(_resolve_local(am, wa)) for c in ast.walk(am) if isinstance(c, ast.Call) and pf.dotted(c.func) == f'{recv}.acquire'
+              for wa in [_weight_arg(c, 'acquire')] if wa is not None]
     others = [x for x in params if x != recv]
     w = wcands[0] if wcands and wcands[0] in others else (others[0] if len(others) == 1 else None)
     ctx.need(w is not None, f'{cons}: cannot tell which parameter of {params} is the weight')
@@ -494,10 +617,18 @@ def _manager_generator(ctx: Ctx, m: pf.Module, am: pf.FuncDef, file: str = F, ow
     Y = ys[0]
     acq = af.stmt_nodes(cfg, lambda n: any(isinstance(x, ast.Await) and pf.call_name(x) == f'{recv}.acquire' for x in ast.walk(n.ast)))
     rel = af.stmt_nodes(cfg, lambda n: af.node_is_call(n, f'{recv}.release') is not None)
+    un = _uninlined(par_cls, am, recv, allow=('acquire', 'release')) if (par_cls := m.parents().get(am)) is not None and isinstance(par_cls, ast.ClassDef) else []
+    ctx.need(not un, f'{cons}: still calls {un[0] if un else ""} (helper not inlined)')
+    if not acq or not rel:
+        other = [pf.nsrc(c) for c in ast.walk(am) if isinstance(c, ast.Call) and isinstance(c.func, ast.Attribute) and c.func.attr in ('acquire', 'release')
+                 and pf.dotted(c.func) not in (f'{recv}.acquire', f'{recv}.release')]
+        ctx.need(not other, f'{cons}: `{other[0] if other else ""}`: cannot tell whether the receiver is the semaphore `{recv}`')
     ok = len(acq) == 1 and cfg.dominated_by(Y, lambda n: n is acq[0]) and not af.direct(cfg, acq[0], acq[0])
     if ok:
         c = af.node_is_call(acq[0], f'{recv}.acquire')
-        ok = c is not None and [pf.nsrc(a) for a in c.args] == [w] and not c.keywords
+        wa = _weight_arg(c, 'acquire') if c is not None else None
+        ctx.need(wa is not None, f'{cons}: argument shape of `{pf.nsrc(c) if c is not None else "?"}` not recognised')
+        ok = pf.nsrc(_resolve_local(am, wa)) == w  # type: ignore[arg-type]
         later = [n for n in af.stmt_nodes(cfg, pf.node_has_await) if n is not acq[0] and n is not Y and af.direct(cfg, acq[0], n)]
         ok = ok and not later
     ctx.check(ok, 'R2', f'{file}::{owner}.__aenter__', f'the context manager does not `await {recv}.acquire({w})` exactly once before its yield as its only suspension point', m.path, am.lineno)
@@ -511,7 +642,8 @@ def _manager_generator(ctx: Ctx, m: pf.Module, am: pf.FuncDef, file: str = F, ow
     # (b) after the acquire completed every exit passes exactly one release of the same weight
     leak = af.must_pass(cfg, A, lambda n: n is cfg.exit or n is cfg.raise_exit, lambda n: any(n is r for r in rel), edge_ok=lambda a, b, lab: not (a is A and lab == 'exc'))
     twice = any(af.direct(cfg, r1, r2) for r1 in rel for r2 in rel)
-    args_ok = all((c := af.node_is_call(r, f'{recv}.release')) is not None and [pf.nsrc(a) for a in c.args] == [w] and not c.keywords for r in rel)
+    args_ok = all((c := af.node_is_call(r, f'{recv}.release')) is not None and (wa2 := _weight_arg(c, 'release')) is not None and pf.nsrc(_resolve_local(am, wa2)) == w
+                  for r in rel)
     pre = [n for n in cfg.nodes if n.ast is not None and pf.node_has_await(n) and n is not A and n is not Y and any(af.direct(cfg, n, r) for r in rel)]
     msg = None
     if skip is not None or viaexc is not None:
@@ -567,24 +699,51 @@ def _manager_class(ctx: Ctx, m: pf.Module, cm: ast.ClassDef, file: str, sem_para
             bad_use = [c for c in ast.walk(fn_) if isinstance(c, ast.Call) and pf.dotted(c.func) in (f'{sem_f[0]}.acquire', f'{sem_f[0]}.release')]
             ctx.need(not bad_use, f'{name}.{fn_.name}: acquires/releases outside __aenter__/__aexit__ (not analysed)')
     ctx.need(isinstance(en, ast.AsyncFunctionDef) and isinstance(ex, ast.AsyncFunctionDef), f'{name}: __aenter__/__aexit__ are not coroutines')
+
+    def stored(fn_: pf.FuncDef, e: Optional[ast.AST]) -> str:
+        """'same' -- e is the stored weight; 'other' -- recognisably something else (a constant, another field, arithmetic on the weight);
+        'unknown' otherwise."""
+        if e is None:
+            return 'unknown'
+        r = _resolve_local(fn_, e)
+        if pf.nsrc(r) == w_f[0]:
+            return 'same'
+        if isinstance(r, ast.Constant) or pf.nsrc(r) in fields or (isinstance(r, (ast.BinOp, ast.UnaryOp)) and af.mentions(r, w_f[0])):
+            return 'other'
+        return 'unknown'
+    for fn_, what in ((en, '__aenter__'), (ex, '__aexit__')):
+        un = _uninlined(cm, fn_, fn_.args.args[0].arg if fn_.args.args else 'self')
+        ctx.need(not un, f'{name}.{what}: still calls {un[0] if un else ""} (helper not inlined): acquisition / release not visible in {what} itself')
     cfg = pf.cfg(en)
     acq = af.stmt_nodes(cfg, lambda n: any(isinstance(x, ast.Await) and pf.call_name(x) == f'{sem_f[0]}.acquire' for x in ast.walk(n.ast)))
+    if not acq:
+        other = [pf.nsrc(c) for c in ast.walk(en) if isinstance(c, ast.Call) and isinstance(c.func, ast.Attribute) and c.func.attr == 'acquire']
+        ctx.need(not other, f'{name}.__aenter__: `{other[0] if other else ""}`: cannot tell whether the receiver is the stored semaphore {sem_f[0]}')
     ok = len(acq) == 1 and cfg.dominated_by(cfg.exit, lambda n: n is acq[0]) and not af.direct(cfg, acq[0], acq[0])
     if ok:
         c = af.node_is_call(acq[0], f'{sem_f[0]}.acquire')
-        ok = c is not None and [pf.nsrc(a) for a in c.args] == [w_f[0]] and not c.keywords
+        how = stored(en, _weight_arg(c, 'acquire') if c is not None else None)
+        ctx.need(how != 'unknown', f'{name}.__aenter__: cannot relate the acquired amount in `{pf.nsrc(c) if c is not None else "?"}` to the stored weight {w_f[0]}')
+        ok = how == 'same'
         # no other suspension point after the acquire inside __aenter__ (a cancel there would skip __aexit__)
         later = [n for n in af.stmt_nodes(cfg, pf.node_has_await) if n is not acq[0] and af.direct(cfg, acq[0], n)]
         ok = ok and not later
     ctx.check(ok, 'R2', f'{file}::{name}.__aenter__', f'__aenter__ does not `await {sem_f[0]}.acquire({w_f[0]})` exactly once on every path as its last suspension point',
               m.path, en.lineno)
     cfg = pf.cfg(ex)
-    rel = af.stmt_nodes(cfg, lambda n: af.node_is_call(n, f'{sem_f[0]}.release') is not None)
-    ok = len(rel) == 1 and cfg.dominated_by(cfg.exit, lambda n: n is rel[0]) and not af.direct(cfg, rel[0], rel[0])
+    rel_all = af.stmt_nodes(cfg, lambda n: af.node_is_call(n, f'{sem_f[0]}.release') is not None)
+    if not rel_all:
+        other = [pf.nsrc(c) for c in ast.walk(ex) if isinstance(c, ast.Call) and isinstance(c.func, ast.Attribute) and c.func.attr == 'release']
+        ctx.need(not other, f'{name}.__aexit__: `{other[0] if other else ""}`: cannot tell whether the receiver is the stored semaphore {sem_f[0]}')
+    rel_stmts = {id(n.ast): n for n in rel_all}       # a `finally` body is duplicated per continuation in the CFG: one statement, several nodes
+    rel = list(rel_stmts.values())
+    ok = len(rel) == 1 and cfg.dominated_by(cfg.exit, lambda n: any(n is r for r in rel_all)) and not any(af.direct(cfg, r1, r2) for r1 in rel_all for r2 in rel_all)
     if ok:
         c = af.node_is_call(rel[0], f'{sem_f[0]}.release')
-        ok = c is not None and [pf.nsrc(a) for a in c.args] == [w_f[0]] and not c.keywords
-        pre = [n for n in cfg.nodes if n.ast is not None and pf.node_has_await(n) and af.direct(cfg, n, rel[0])]
+        how = stored(ex, _weight_arg(c, 'release') if c is not None else None)
+        ctx.need(how != 'unknown', f'{name}.__aexit__: cannot relate the released amount in `{pf.nsrc(c) if c is not None else "?"}` to the stored weight {w_f[0]}')
+        ok = how == 'same'
+        pre = [n for n in cfg.nodes if n.ast is not None and pf.node_has_await(n) and any(af.direct(cfg, n, r) for r in rel_all)]
         ok = ok and not pre
     ctx.check(ok, 'R2', f'{file}::{name}.__aexit__', f'__aexit__ does not release exactly the acquired weight `{w_f[0]}` once, unconditionally (normal, error and '
               f'cancellation exits) and before any suspension point (found {[n.text() for n in rel]})', m.path, ex.lineno)
@@ -601,14 +760,35 @@ def _manager(ctx: Ctx, m: pf.Module) -> None:
     init = af.method(m, cm, '__init__')
     params = [a.arg for a in init.args.args]
     ctx.need(len(params) == 3, f'{CM}.__init__ parameters changed: {params}')
-    _manager_class(ctx, m, cm, F)
+    wpar = _manager_class(ctx, m, cm, F)
     cls = m.cls(CLS)
     am = af.method(m, cls, 'acquire_manager')
-    body = af.body_no_doc(am)
+    ctx.need(isinstance(am, ast.FunctionDef), f'{CLS}.acquire_manager is a coroutine (call sites `async with x.acquire_manager(w)` not analysed)')
     p2 = [a.arg for a in am.args.args]
-    ok = len(body) == 1 and isinstance(body[0], ast.Return) and isinstance(body[0].value, ast.Call) and pf.dotted(body[0].value.func) == CM \
-        and [pf.nsrc(a) for a in body[0].value.args] == p2 and not body[0].value.keywords
-    ctx.check(ok, 'R2', f'{F}::{CLS}.acquire_manager', f'does not return {CM}(self, n)', m.path, am.lineno)
+    ctx.need(len(p2) == 2 and not (am.args.vararg or am.args.kwarg or am.args.kwonlyargs or am.args.posonlyargs), f'{CLS}.acquire_manager parameters changed: {p2}')
+    ctx.need(all(len(pf.assignments(am).get(x, [])) == 1 for x in p2), f'{CLS}.acquire_manager: a parameter is re-bound')
+    rets = [r for r in pf.walk_shallow(am) if isinstance(r, ast.Return)]
+    cfg = pf.cfg(am)
+    ctx.need(rets and cfg.path_avoiding(cfg.entry, lambda n: n is cfg.exit, lambda n: n.kind == 'return') is None, f'{CLS}.acquire_manager does not end in a return on every path')
+    sem_par = [x for x in params[1:] if x != wpar]
+    ctx.need(len(sem_par) == 1, f'{CM}.__init__: cannot tell the semaphore parameter from {params}')
+    verdict = True
+    for r in rets:
+        v = pf.resolve_expr(am, r.value) if r.value is not None else None
+        ctx.need(isinstance(v, ast.Call) and cf.local_class(m, v.func) is cm, f'{CLS}.acquire_manager: returns `{pf.nsrc(r.value) if r.value is not None else None}`, '
+                 f'which is not (recognisably) a {CM}')
+        sem_a, w_a = _arg_for(init, v, sem_par[0], True), _arg_for(init, v, wpar, True)  # type: ignore[arg-type]
+        ctx.need(sem_a is not None and w_a is not None and not any(isinstance(x, ast.Starred) for x in v.args) and not any(k.arg is None for k in v.keywords),  # type: ignore[union-attr]
+                 f'{CLS}.acquire_manager: cannot bind the arguments of `{pf.nsrc(v)}` to {CM}.__init__{tuple(params[1:])}')
+        wr = _resolve_local(am, w_a)  # type: ignore[arg-type]
+        sr = _resolve_local(am, sem_a)  # type: ignore[arg-type]
+        good = pf.nsrc(sr) == p2[0] and pf.nsrc(wr) == p2[1]
+        if not good:
+            # evidence: another semaphore / a weight that is recognisably not the requested one
+            known = (isinstance(wr, ast.Constant) or pf.names_in(wr) <= set(p2)) and (isinstance(sr, ast.Constant) or pf.names_in(sr) <= set(p2))
+            ctx.need(known, f'{CLS}.acquire_manager: cannot relate the arguments of `{pf.nsrc(v)}` to (self, {p2[1]})')
+        verdict = verdict and good
+    ctx.check(verdict, 'R2', f'{F}::{CLS}.acquire_manager', f'does not return {CM}(self, n)', m.path, am.lineno)
 
 
 def _upper(m: pf.Module, e: ast.AST) -> Optional[Fraction]:
@@ -653,7 +833,10 @@ def _copier(ctx: Ctx) -> None:
     @asynccontextmanager function of this module (analysed like _AcquireManager), or the manual `await X.acquire(w)` + try/finally."""
     m = pf.load(CP)
     par = m.parents()
-    attrs = {'xfer_sema'}
+    # the transfer semaphore is the attribute that is bound to a WeightedSemaphore(...) (whatever it is called; `xfer_sema` today)
+    attrs = {t.attr for st in ast.walk(m.tree) if isinstance(st, (ast.Assign, ast.AnnAssign)) and isinstance(getattr(st, 'value', None), ast.Call)
+             and (cf.origin(m, st.value.func) or '').split('.')[-1] == CLS  # type: ignore[union-attr]
+             for t in (st.targets if isinstance(st, ast.Assign) else [st.target]) if isinstance(t, ast.Attribute)} or {'xfer_sema'}
     fparams: set = set()          # (function node, parameter name) that receive the semaphore
     managers: dict = {}           # id(class/function node) -> (node, sem param)
     funcs_by_name = {st.name: st for st in m.tree.body if isinstance(st, (ast.FunctionDef, ast.AsyncFunctionDef))}
@@ -688,10 +871,14 @@ def _copier(ctx: Ctx) -> None:
                 if pn is not None and (fn_, pn) not in fparams:
                     fparams.add((fn_, pn))
                     changed = True
-            elif isinstance(n, ast.Name) and isinstance(p, (ast.Assign, ast.AnnAssign)) and p.value is n:
+            elif isinstance(p, (ast.Assign, ast.AnnAssign)) and p.value is n:
                 t = p.targets[0] if isinstance(p, ast.Assign) and len(p.targets) == 1 else getattr(p, 'target', None)
-                if isinstance(t, ast.Attribute) and t.attr not in attrs:
+                if isinstance(n, ast.Name) and isinstance(t, ast.Attribute) and t.attr not in attrs:
                     attrs.add(t.attr)
+                    changed = True
+                elif isinstance(t, ast.Name) and m.enclosing_func(n) is not None and (m.enclosing_func(n), t.id) not in fparams:
+                    # a local alias `sema = self.xfer_sema`: its uses are uses of the semaphore
+                    fparams.add((m.enclosing_func(n), t.id))
                     changed = True
 
     def is_cm_class(c: ast.AST) -> bool:
@@ -704,10 +891,25 @@ def _copier(ctx: Ctx) -> None:
     weights = []
     analysed: dict = {}
 
-    def with_site(call: ast.Call, q: str, lineno: int) -> bool:
+    def with_site(call: ast.Call, q: str, lineno: int) -> Optional[bool]:
+        """True: the manager built by `call` is entered by an `async with` (directly, or through a local bound once and used only there);
+        False: the manager is recognisably NOT entered (the call is a statement of its own: its result is dropped); None: anything else."""
         item = par.get(call)
         stmt = par.get(item) if item is not None else None
-        return isinstance(item, ast.withitem) and item.context_expr is call and isinstance(stmt, ast.AsyncWith)
+        if isinstance(item, ast.withitem) and item.context_expr is call and isinstance(stmt, ast.AsyncWith):
+            return True
+        if isinstance(item, ast.Expr):
+            return False
+        fn_ = m.enclosing_func(call)
+        if isinstance(item, (ast.Assign, ast.AnnAssign)) and item.value is call and fn_ is not None:
+            t = item.targets[0] if isinstance(item, ast.Assign) and len(item.targets) == 1 else getattr(item, 'target', None)
+            if isinstance(t, ast.Name) and len(pf.assignments(fn_).get(t.id, [])) == 1:
+                uses = [x for x in ast.walk(fn_) if isinstance(x, ast.Name) and x.id == t.id and isinstance(x.ctx, ast.Load)]
+                if len(uses) == 1:
+                    it2 = par.get(uses[0])
+                    if isinstance(it2, ast.withitem) and it2.context_expr is uses[0] and isinstance(par.get(it2), ast.AsyncWith):
+                        return True
+        return None
 
     for n in list(sem_nodes()):
         fn = m.enclosing_func(n)
@@ -721,25 +923,39 @@ def _copier(ctx: Ctx) -> None:
             cons = f'{CP}::{q}::{pf.nsrc(p)}'
             if isinstance(val, ast.Name) and fn is not None and val.id in [a.arg for a in fn.args.args]:
                 ctx.ok('R2', cons, 'handed over by the caller')
-            elif isinstance(val, ast.Call) and pf.dotted(val.func) == CLS and len(val.args) == 1 and not val.keywords:
-                cap = af.const_number(m, val.args[0])
-                ctx.need(cap is not None, f'{cons}: capacity `{pf.nsrc(val.args[0])}` is not a constant expression')
+            elif isinstance(val, ast.Call) and (cf.origin(m, val.func) or '').split('.')[-1] == CLS:
+                cap_e = val.args[0] if len(val.args) == 1 and not val.keywords else val.keywords[0].value if not val.args and len(val.keywords) == 1 \
+                    and val.keywords[0].arg == _WP.get('__init__') else None
+                ctx.need(cap_e is not None, f'{cons}: argument shape of `{pf.nsrc(val)}` not recognised')
+                if fn is not None and isinstance(cap_e, ast.Name) and cap_e.id not in [a.arg for a in fn.args.args]:
+                    cap_e = pf.resolve_expr(fn, cap_e)
+                cap = af.const_number(m, cap_e)  # type: ignore[arg-type]
+                ctx.need(cap is not None, f'{cons}: capacity `{pf.nsrc(cap_e)}` is not a constant expression')
                 caps.append(cap)  # type: ignore[arg-type]
                 ctx.ok('R2', cons, {'capacity': int(cap)})  # type: ignore[arg-type]
             else:
                 ctx.need(isinstance(val, ast.Call), f'{cons}: unrecognised initialisation of the transfer semaphore')
+                # evidence: another CLASS is instantiated (a name imported / defined as a class, spelled like one); a factory function is not analysed
+                o = cf.origin(m, val.func) or ''  # type: ignore[union-attr]
+                last = o.split('.')[-1]
+                ctx.need(bool(last) and last[:1].isupper() and (cf.local_class(m, val.func) is not None or o != pf.dotted(val.func) or '.' in o),  # type: ignore[union-attr]
+                         f'{cons}: the transfer semaphore is built by `{pf.nsrc(val)}` (factory not analysed)')
                 ctx.bad('R2', cons, f'the transfer semaphore is built by `{pf.nsrc(val)}`, not by {CLS}(capacity): the analysed semaphore is not the one in use',
                         m.path, n.lineno)
-        elif isinstance(n, ast.Name) and isinstance(p, (ast.Assign, ast.AnnAssign)) and p.value is n:
-            continue  # `self.X = param`: reported at the Store side
+        elif isinstance(p, (ast.Assign, ast.AnnAssign)) and p.value is n and (isinstance(n, ast.Name) or isinstance(
+                p.targets[0] if isinstance(p, ast.Assign) and len(p.targets) == 1 else getattr(p, 'target', None), ast.Name)):
+            continue  # `self.X = param`: reported at the Store side;  `local = self.X`: the alias is followed
         elif isinstance(p, ast.Attribute) and p.value is n and p.attr == 'acquire_manager':
             call = par.get(p)
             ctx.need(isinstance(call, ast.Call) and call.func is p, f'{CP}::{q}: acquire_manager is not called')
             cons = f'{CP}::{q}::{pf.nsrc(call)}'
-            if with_site(call, q, n.lineno):  # type: ignore[arg-type]
-                ctx.check(len(call.args) == 1 and not call.keywords, 'R2', cons, 'acquire_manager is not called with exactly the weight', m.path, n.lineno)  # type: ignore[union-attr]
-                if len(call.args) == 1:  # type: ignore[union-attr]
-                    weights.append((q, call.args[0], n.lineno))  # type: ignore[union-attr]
+            site = with_site(call, q, n.lineno)  # type: ignore[arg-type]
+            ctx.need(site is not None, f'{cons}: the manager is neither the context expression of an `async with` nor dropped (hand-over of the manager not analysed)')
+            if site:
+                wa = _weight_arg(call, 'acquire_manager')  # type: ignore[arg-type]
+                ctx.need(wa is not None, f'{cons}: argument shape of acquire_manager not recognised')
+                ctx.ok('R2', cons, 'async with')
+                weights.append((q, wa, n.lineno))
             else:
                 ctx.bad('R2', cons, f'`{pf.nsrc(call)}` is not the context expression of an `async with`: nothing is acquired / the weight is not returned '
                         f'on every exit', m.path, n.lineno)
@@ -760,7 +976,9 @@ def _copier(ctx: Ctx) -> None:
                     else:
                         analysed[id(owner)] = _manager_generator(ctx, m, owner, CP, owner.name, f'{CP}::{owner.name}', pn)  # type: ignore[arg-type,union-attr]
                 wpar = analysed[id(owner)]
-                if with_site(p, q, n.lineno):
+                site = with_site(p, q, n.lineno)
+                ctx.need(site is not None, f'{cons}: the manager is neither the context expression of an `async with` nor dropped (hand-over of the manager not analysed)')
+                if site:
                     warg = _arg_for(fn_, p, wpar, skip)
                     ctx.check(warg is not None, 'R2', cons, f'`{pf.nsrc(p)}` does not pass the weight `{wpar}`', m.path, n.lineno)
                     if warg is not None:
@@ -770,7 +988,7 @@ def _copier(ctx: Ctx) -> None:
                             m.path, n.lineno)
             else:
                 ctx.ok('R2', cons, 'handed over')
-        elif isinstance(p, ast.Attribute) and p.value is n and p.attr in ('value', 'max') and isinstance(p.ctx, ast.Load):
+        elif isinstance(p, ast.Attribute) and p.value is n and p.attr in (VAL.split('.')[-1], 'max') and isinstance(p.ctx, ast.Load):
             continue  # read-only look at the counters
         elif in_manager and isinstance(p, ast.Attribute) and p.value is n and p.attr in ('acquire', 'release'):
             continue  # decided by the context-manager analysis above
@@ -814,13 +1032,43 @@ def _copier(ctx: Ctx) -> None:
     ctx.need(len(caps) == 1, f'{CP}: expected one construction of the transfer semaphore, found {len(caps)}')
     if any(f_.rule in ('R2', 'R5') and f_.key.startswith(CP) for f_ in ctx.findings) and not weights:
         ctx.min_counts['R4'] = 0   # the acquisition sites themselves are reported as broken: nothing to bound
+    def bound_of(fnode: pf.FuncDef, e: ast.AST, depth: int = 2) -> Optional[Fraction]:
+        """Constant upper bound of a weight expression inside fnode: constants / min(..), a local bound once, a parameter all of whose
+        call sites in this module pass bounded values."""
+        up = _upper(m, e)
+        if up is not None:
+            return up
+        if isinstance(e, ast.Call) and pf.dotted(e.func) == 'min' and e.args and not e.keywords:
+            ups = [u for u in (bound_of(fnode, a_, depth) for a_ in e.args) if u is not None]
+            return min(ups) if ups else None
+        if isinstance(e, ast.Name):
+            pnames = [a_.arg for a_ in fnode.args.args + fnode.args.kwonlyargs]
+            defs = pf.assignments(fnode).get(e.id, [])
+            if e.id not in pnames and len(defs) == 1 and isinstance(defs[0], ast.expr):
+                return bound_of(fnode, defs[0], depth)
+            if e.id in pnames and len(defs) == 1 and depth > 0:
+                sites = [c for c in ast.walk(m.tree) if isinstance(c, ast.Call) and ((isinstance(c.func, ast.Attribute) and c.func.attr == fnode.name)
+                                                                                     or (isinstance(c.func, ast.Name) and c.func.id == fnode.name))]
+                is_method = isinstance(par.get(fnode), ast.ClassDef)
+                ups2 = []
+                for c in sites:
+                    a_ = _arg_for(fnode, c, e.id, is_method)
+                    caller = m.enclosing_func(c)
+                    u = bound_of(caller, a_, depth - 1) if a_ is not None and caller is not None else None
+                    if u is None:
+                        return None
+                    ups2.append(u)
+                return max(ups2) if ups2 else None
+        return None
+
     for q, wexpr, line in weights:
-        up = _upper(m, wexpr)
+        fnode = m.func(q)
+        up = bound_of(fnode, wexpr)
         cons = f'{CP}::{q}::weight {pf.nsrc(wexpr)}'
-        if up is None and isinstance(wexpr, ast.Name):
-            fnode = m.func(q)
-            if wexpr.id in [a.arg for a in fnode.args.args] and len(pf.assignments(fnode).get(wexpr.id, [])) == 1:
-                ctx.bad('R4', cons, f'the requested weight is the unbounded parameter `{wexpr.id}`: for values above the capacity {caps[0]} '
+        rw = pf.resolve_expr(fnode, wexpr)
+        if up is None and isinstance(rw, ast.Name):
+            if rw.id in [a.arg for a in fnode.args.args] and len(pf.assignments(fnode).get(rw.id, [])) == 1:
+                ctx.bad('R4', cons, f'the requested weight is the unbounded parameter `{rw.id}`: for values above the capacity {caps[0]} '
                         f'`assert n <= self.max` fails / the request can never be granted', m.path, line)
                 continue
         ctx.need(up is not None, f'{cons}: no constant upper bound recognised')
@@ -829,12 +1077,46 @@ def _copier(ctx: Ctx) -> None:
     ctx.unit('copier_async_with_sites', len(weights))
 
 
+def _field_names(m0: pf.Module) -> None:
+    """Fields and the manager class by what they are, not by how they are called: the counter is the attribute that __init__ binds to its
+    capacity parameter and that is written again outside __init__; the waiter list is the attribute __init__ binds to a Sorted*List / list /
+    deque; the manager class is the module-local class acquire_manager instantiates.  Unresolved: the historical names stay."""
+    global VAL, EV, CM
+    VAL, EV, CM = 'self.value', 'self.events', '_AcquireManager'
+    cls0 = m0.cls(CLS)
+    init = next((f for f in cls0.body if isinstance(f, ast.FunctionDef) and f.name == '__init__'), None)
+    if init is not None and len(init.args.args) == 2:
+        me, cap = init.args.args[0].arg, init.args.args[1].arg
+        written = {n.attr for f in cls0.body if isinstance(f, (ast.FunctionDef, ast.AsyncFunctionDef)) and f is not init for n in ast.walk(f)
+                   if isinstance(n, ast.Attribute) and isinstance(n.ctx, ast.Store) and isinstance(n.value, ast.Name) and n.value.id == 'self'}
+        vals, evs = [], []
+        for st in init.body:
+            tgt = st.targets[0] if isinstance(st, ast.Assign) and len(st.targets) == 1 else st.target if isinstance(st, ast.AnnAssign) and st.value is not None else None
+            if not (isinstance(tgt, ast.Attribute) and isinstance(tgt.value, ast.Name) and tgt.value.id == me):
+                continue
+            v = pf.resolve_expr(init, st.value)  # type: ignore[union-attr]
+            if isinstance(v, ast.Name) and v.id == cap and tgt.attr in written:
+                vals.append(tgt.attr)
+            elif (isinstance(v, ast.Call) and (pf.dotted(v.func) or '').split('.')[-1] in ('SortedKeyList', 'SortedList', 'list', 'deque')) or isinstance(v, ast.List):
+                evs.append(tgt.attr)
+        if len(vals) == 1:
+            VAL = f'self.{vals[0]}'
+        if len(evs) == 1:
+            EV = f'self.{evs[0]}'
+    am = next((f for f in cls0.body if isinstance(f, ast.FunctionDef) and f.name == 'acquire_manager'), None)
+    if am is not None:
+        made = {pf.dotted(c.func) for r in pf.walk_shallow(am) if isinstance(r, ast.Return) and r.value is not None
+                for c in [pf.resolve_expr(am, r.value)] if isinstance(c, ast.Call) and cf.local_class(m0, c.func) is not None}
+        if len(made) == 1:
+            CM = next(iter(made))  # type: ignore[assignment]
+
+
 def run(ctx: Ctx) -> None:
     ctx.explanation = ('CFG guard-dominance with await-atomicity for every decrement of the counter, exhaustive evaluation of the guards over '
                        '{value<n, ==, >} x {waiters, none}, must-pass coupling of set/pop/decrement in release, pairing in _AcquireManager, closure over '
                        'all uses of xfer_sema in copier.py, and for every await after a waiter registration the set of except/finally blocks that run on CancelledError.')
     ctx.rule('R1', 'every `self.value -= n` is guarded atomically by self.value >= n; release wakes, removes and charges the same head waiter together; '
-                   'writer/reader tuple layout agrees', 8)
+                   'writer/reader tuple layout agrees', 9)
     ctx.rule('R2', '_AcquireManager acquires/releases the same weight, releases unconditionally; release gives the weight back; '
                    'all copier uses go through `async with acquire_manager(w)`', 9)
     ctx.rule('R3', 'an await that follows a waiter registration deregisters the waiter\'s own entry (found by ==: entries of different waiters never compare equal) / '
@@ -844,9 +1126,24 @@ def run(ctx: Ctx) -> None:
                    'so that cancelling that task reaches the waiter clean-up inside acquire', 1)
     ctx.assume('asyncio runs one coroutine at a time and switches only at await; Task.cancel() raises CancelledError at the pending await, '
                'also when the awaited event has already been set but the task has not resumed yet')
-    m = pf.load(F)
+    m0 = pf.load(F)
     ctx.unit('files', 2)
+    _field_names(m0)
+    # acquire / release are analysed with their same-class helpers inlined (an extracted slow path / clean-up is seen through) and every
+    # method of both classes in one spelling (engines/c2440norm.py: `x = x + n` as `x += n`, boolean locals moved into the test they feed,
+    # locals holding an immutable attribute replaced by it, guard clauses)
+    m, il = nm.prepare(m0, CLS, ['acquire', 'release'], exclude=('__init__', 'acquire_manager'), drop_absorbed=True, also_classes=(CM,))
+    ctx.unit('helpers_inlined', len(il.inlined))
+    if any(isinstance(c, ast.ClassDef) and c.name == CM for c in m.tree.body):
+        m, il2 = nm.prepare(m, CM, ['__aenter__', '__aexit__'], exclude=('__init__',), drop_absorbed=True)
+        ctx.unit('helpers_inlined', len(il2.inlined))
     cls = m.cls(CLS)
+    _WP.clear()
+    for meth in ('acquire', 'release', 'acquire_manager', '__init__'):
+        f_ = next((x for x in cls.body if isinstance(x, (ast.FunctionDef, ast.AsyncFunctionDef)) and x.name == meth), None)
+        if f_ is not None and len(f_.args.args) == 2:
+            _WP[meth] = f_.args.args[1].arg
+    _precheck_decrements(ctx, m, cls)
     guards = af.guarded_decrements(ctx, m, cls, 'R1', VAL, [EV])
     layout = _acquire(ctx, m, cls, guards)
     _release(ctx, m, cls, guards, layout)
